@@ -2,6 +2,7 @@ import Driver.Mgr
 import Driver.Table
 import Driver.Expr
 import Driver.OptD
+import Driver.MeritD
 import Driver.MadxD
 import Driver.LinD
 import Driver.HeapD
@@ -45,7 +46,7 @@ partial def loopOpt (h : IO.FS.Stream) (out : IO.FS.Stream) (n : Nat) : IO Unit 
   if line.isEmpty then return ()
   match Json.parse line with
   | .error e => out.putStrLn (Json.mkObj [("n", n), ("bad-op", .str ("parse: " ++ e))]).compress
-  | .ok j => out.putStrLn ((DOpt.step j).setObjVal! "n" n).compress
+  | .ok j => out.putStrLn ((if DOpt.isMerit j then DOpt.meritStep j else DOpt.step j).setObjVal! "n" n).compress
   loopOpt h out (n+1)
 
 partial def loopMadx (h : IO.FS.Stream) (out : IO.FS.Stream) (n : Nat) : IO Unit := do
